@@ -5,7 +5,7 @@ import itertools
 from props import putval as pv
 
 IMPORTS = pv.IMPORTS
-THEOREMS = ["stores_new_only_if_paid", "failed_payment_rejected", "unpaid_only_updates",
+THEOREMS = ["payment_sees_latest_only", "stores_new_only_if_paid", "failed_payment_rejected", "unpaid_only_updates",
             "rejected_no_effect", "payment_ok_iff", "source_constants_c03"]
 RULE = ("decision table: all 2^6 truth assignments of the six payment conditions (every quote signed by its "
         "claimed node, this node among the payees, payees known as close, no quote expired, contract confirms, "
@@ -197,7 +197,7 @@ def rand_case(rng):
 
 
 def gen(ctx):
-    cs = table() + pv.cross_kind_cases() + pv.back_to_back_cases() + pv.raw_chunk_cases() + pv.pad_boundary_cases() + pv.forged_update_cases()
+    cs = table() + pv.cross_kind_cases() + pv.back_to_back_cases() + pv.raw_chunk_cases() + pv.pad_boundary_cases() + pv.forged_update_cases() + pv.reencoded_pubkey_cases() + pv.pending_payment_cases()
     n = 600 if ctx.tier == "quick" else 12000
     cs += [rand_case(ctx.rng) for _ in range(n)]
     return cs
